@@ -267,7 +267,8 @@ private:
             t.value_ref = get_optional_string_attribute(root, "valueRef");
             t.constant_value = get_optional_node_content(root);
 
-            if((t.primitive_type == "char") && root.attribute("length").empty())
+            if((t.primitive_type == "char") && root.attribute("length").empty()
+               && t.constant_value)
             {
                 t.length = t.constant_value->size();
             }
